@@ -926,7 +926,7 @@ func c15EscOracle(raw, esc string) bool {
 
 func main() {
 	hmain.Run(&hmain.Prop{ID: "C15",
-		Rule: "join-exhaustive: every sequence over {start, continue, other, no-field, time-out} (time-outs only while busy) up to the tier's length (6 quick / 8 thorough) x max_event_size {0,4} x negate; join-any-timeouts: the same alphabet with unconstrained time-outs (len<=5); join-random / join-template: long sequences, real regexps / templates, oracle bits computed by the real matchers; k8s-exhaustive: every chunk sequence over 7 raw fragments + time-out x 5 configs; k8s-random, k8s-adversarial; thresholds: join-template-edges (lines ending exactly at the markers of the template matchers), join-/k8s-exhaustive-sample (quick tier: random sequences of the thorough tier's extra lengths 7-8 / 5), k8s-pooled-buf (event.Buf in use or with spare capacity, label filters), k8s-default-split (split_event_size 1000000 hit exactly and by one), k8s-huge-max (16 KiB chunks against max_event_size of 20000-65536 with and without cut-off). Non-trivial = the sequence contains at least one run start (join) / one partial chunk (k8s) and has >= 2-3 events; distinct = distinct (sub-model, case) text.",
+		Rule: "join-exhaustive: every sequence over {start, continue, other, no-field, time-out} (time-outs only while busy) up to the tier's length (6 quick / 8 thorough) x max_event_size {0,4} x negate; join-any-timeouts: the same alphabet with unconstrained time-outs (len<=5); join-random / join-template: long sequences, real regexps / templates, oracle bits computed by the real matchers; k8s-exhaustive: every chunk sequence over 7 raw fragments + time-out x 5 configs; k8s-random, k8s-adversarial; thresholds: join-template-edges (lines ending exactly at the markers of the template matchers), join-/k8s-exhaustive-sample (quick tier: random sequences of the thorough tier's extra lengths 7-8 / 5), k8s-pooled-buf (event.Buf in use or with spare capacity, label filters), k8s-default-split (split_event_size 1000000 hit exactly and by one), k8s-huge-max (16 KiB chunks against max_event_size of 20000-65536 with and without cut-off), k8s-cut-escape (max_event_size 4..64 x 14 escape pieces x every offset of the cut limit inside the escaped sequence x with/without a buffered chunk x cut on/off, field on/off, a chunk that would fit again after the cut; plus random escape-heavy lines; every passed log must be a valid escaped JSON string). Non-trivial = the sequence contains at least one run start (join) / one partial chunk (k8s) and has >= 2-3 events; distinct = distinct (sub-model, case) text.",
 		Gen: func(c *hmain.Ctx) {
 			c15Gen(c)
 			c15GenThresholds(c)
